@@ -289,6 +289,11 @@ def refresh_obligation(prog, rule, cname, mname):
                              and x.func.id == "getattr" and len(x.args) >= 2 and isinstance(x.args[0], ast.Name) and x.args[0].id == sn
                              and isinstance(x.args[1], ast.Constant) and isinstance(x.args[1].value, str)}) \
                 if isinstance(st, ast.If) else []
+            if isinstance(st, ast.If):
+                msg_ = size_only_key(prog, ci, fn, sn, a, st)
+                if msg_:
+                    why.append(msg_)
+                    continue
             shared = [k for k in keys if any(root_param(r) is not None for r in attr_out.get(k, ()))]
             # the key is compared EXACTLY: a tolerance (allclose / isclose) has an absolute scale - two different arguments in small
             # units compare equal and the stale value is returned
@@ -455,6 +460,73 @@ def dtype_hazard_obligations(prog, rule, rels):
     ex = ast.parse("def f(q, x):\n    return asarray(q, dtype=x.dtype), reciprocal(x), zeros_like(x)\n").body[0]
     if len(lints.integer_dtype_hazards(ex)) != 3:
         raise AnalysisError("dtype-hazard lint lost its positive examples")
+    return out
+
+
+def size_only_key(prog, ci, fn, sn, a, st):
+    """self.<a> is rebuilt under the guard `st` from a stored container whose LENGTH is all the guard looks at, while the program
+    overwrites items of that container in place somewhere: the message, or None."""
+    from ..term import Resolver as _Rz
+    try:
+        gt_ = _Rz(fn, prog, ci.module, ci).term(st.test, st)
+    except Exception:
+        gt_ = st.test
+    keys = sorted({x.attr for x in ast.walk(gt_) if isinstance(x, ast.Attribute) and isinstance(x.value, ast.Name) and x.value.id == sn})
+    sized = set()
+    for x in ast.walk(gt_):
+        if isinstance(x, ast.Call) and isinstance(x.func, ast.Name) and x.func.id == "len" and x.args:
+            sized |= {id(y) for y in ast.walk(x.args[0])}
+        elif isinstance(x, ast.Attribute) and x.attr in ("size", "shape", "ndim"):
+            sized |= {id(y) for y in ast.walk(x.value)}
+    size_only = [k for k in keys if k != a and all(id(x) in sized for x in ast.walk(gt_) if isinstance(x, ast.Attribute)
+                                                   and isinstance(x.value, ast.Name) and x.value.id == sn and x.attr == k)]
+    def value_term(s2):
+        try:
+            return _Rz(fn, prog, ci.module, ci).term(s2.value, s2)
+        except Exception:
+            return s2.value
+    for k in size_only:
+        reads_items = any(isinstance(s2, ast.Assign) and any(isinstance(t, ast.Attribute) and isinstance(t.value, ast.Name) and t.value.id == sn
+                                                              and t.attr == a for t in s2.targets)
+                          and any(isinstance(x, ast.Attribute) and x.attr == k for x in ast.walk(value_term(s2))) for s2 in ast.walk(st))
+        if not reads_items:
+            continue
+        for rel2, mi2 in prog.by_rel.items():
+            for n2 in ast.walk(mi2.tree):
+                tg2 = n2.targets if isinstance(n2, ast.Assign) else [n2.target] if isinstance(n2, ast.AugAssign) else []
+                for t in tg2:
+                    for x in (t.elts if isinstance(t, (ast.Tuple, ast.List)) else [t]):
+                        if isinstance(x, ast.Subscript) and isinstance(x.value, ast.Attribute) and x.value.attr == k:
+                            return (f"self.{a} is rebuilt from self.{k} only when `{U(st.test)}` (line {st.lineno}), a test on the LENGTH of "
+                                    f"{k}; {rel2}:{n2.lineno} `{U(n2)[:70]}` overwrites an item in place without changing the length, so the "
+                                    f"remembered value keeps the old item")
+    return None
+
+
+def size_keyed_obligations(prog, rule, classes):
+    """One obligation per method that assigns an attribute under an `if`: a remembered copy of a stored container is not keyed on
+    the container's length alone when the program overwrites its items in place."""
+    from ..model import qual
+    out = []
+    for ci in classes:
+        for mname, fn in ci.methods.items():
+            if not fn.args.args or any(ast.unparse(d) in ("staticmethod", "classmethod") for d in fn.decorator_list):
+                continue
+            sn = fn.args.args[0].arg
+            msgs, n = [], 0
+            for st in ast.walk(fn):
+                if not isinstance(st, ast.If):
+                    continue
+                for s2 in ast.walk(st):
+                    if isinstance(s2, ast.Assign):
+                        for t in s2.targets:
+                            if isinstance(t, ast.Attribute) and isinstance(t.value, ast.Name) and t.value.id == sn:
+                                n += 1
+                                m_ = size_only_key(prog, ci, fn, sn, t.attr, st)
+                                if m_ and m_ not in msgs:
+                                    msgs.append(m_)
+            if n:
+                out.append(struct_ob(rule, qual(ci, fn), not msgs, "; ".join(msgs[:2]), ci.module.relpath, fn.lineno, slots={"guarded_stores": n}))
     return out
 
 
